@@ -10,6 +10,7 @@ import (
 	"os"
 	"strconv"
 	"testing"
+	"time"
 
 	"github.com/dgryski/go-wyhash"
 	"github.com/honeycombio/refinery/config"
@@ -53,15 +54,34 @@ func c10StressNew() *c10StressNode {
 	return &c10StressNode{cfg: cfg, sr: &StressRelief{Config: cfg, Logger: &logger.NullLogger{}}}
 }
 
-// configure is the reload path: the configuration changes, UpdateFromConfig re-reads it.
-func (n *c10StressNode) configure(rate uint64) (err error) {
+// c10StressProfiles are the concrete values of the model's Profiles: the rest of
+// the StressRelief configuration record that is (re)loaded together with the
+// rate. None of them may influence which traces are kept at a given rate.
+var c10StressProfiles = map[string]config.StressReliefConfig{
+	"default":     {Mode: "never", ActivationLevel: 90, DeactivationLevel: 75, MinimumActivationDuration: config.Duration(10 * time.Second)},
+	"inverted":    {Mode: "monitor", ActivationLevel: 60, DeactivationLevel: 90, MinimumActivationDuration: config.Duration(3 * time.Second)},
+	"equalAlways": {Mode: "always", ActivationLevel: 80, DeactivationLevel: 80},
+	"zero":        {Mode: "", ActivationLevel: 0, DeactivationLevel: 0},
+	"monitor":     {Mode: "monitor", ActivationLevel: 100, DeactivationLevel: 1, MinimumActivationDuration: config.Duration(time.Hour)},
+}
+
+var c10StressProfileNames = []string{"default", "inverted", "equalAlways", "zero", "monitor"}
+
+// configure is the reload path: the whole configuration record changes,
+// UpdateFromConfig re-reads it.
+func (n *c10StressNode) configure(rate uint64, profile string) (err error) {
 	defer func() {
 		if r := recover(); r != nil {
 			err = fmt.Errorf("panic in UpdateFromConfig with rate %d: %v", rate, r)
 		}
 	}()
+	rec, ok := c10StressProfiles[profile]
+	if !ok {
+		return fmt.Errorf("unknown configuration profile %q", profile)
+	}
+	rec.SamplingRate = rate
 	n.cfg.Mux.Lock()
-	n.cfg.StressRelief.SamplingRate = rate
+	n.cfg.StressRelief = rec
 	n.cfg.Mux.Unlock()
 	n.sr.UpdateFromConfig()
 	return nil
@@ -77,9 +97,9 @@ func (n *c10StressNode) ask(id string) (a c10StressAnswer, err error) {
 	return c10StressAnswer{rate, keep}, nil
 }
 
-func c10StressFresh(rate uint64) (*c10StressNode, error) {
+func c10StressFresh(rate uint64, profile string) (*c10StressNode, error) {
 	n := c10StressNew()
-	return n, n.configure(rate)
+	return n, n.configure(rate, profile)
 }
 
 // c10StressHarness binds spec/Deterministic.tla (Kind = "stress") to real
@@ -131,7 +151,11 @@ func (h *c10StressHarness) Apply(a map[string]any) error {
 		if h.node[i] == nil {
 			h.node[i] = c10StressNew()
 		}
-		if err := h.node[i].configure(r); err != nil {
+		prof := verifkit.Str(a, "p")
+		if _, ok := c10StressProfiles[prof]; !ok {
+			return fmt.Errorf("unknown configuration profile %q", prof)
+		}
+		if err := h.node[i].configure(r, prof); err != nil {
 			h.panicMsg = err.Error()
 			return nil
 		}
@@ -173,9 +197,10 @@ func (h *c10StressHarness) sweep() {
 		return
 	}
 	dropped := false
-	for _, r := range append([]uint64{0, 1}, rates...) {
-		n1, e1 := c10StressFresh(r)
-		n2, e2 := c10StressFresh(r)
+	for k, r := range append([]uint64{0, 1}, rates...) {
+		// two nodes started with different records that share only the rate
+		n1, e1 := c10StressFresh(r, c10StressProfileNames[k%len(c10StressProfileNames)])
+		n2, e2 := c10StressFresh(r, c10StressProfileNames[(k+1+h.h)%len(c10StressProfileNames)])
 		if e1 != nil || e2 != nil {
 			h.panicMsg = fmt.Sprint(e1, e2)
 			return
@@ -230,7 +255,8 @@ func (h *c10StressHarness) Project() (any, error) {
 			out["unknownRate_"+i] = a.rate
 		}
 		ans[i] = map[string]any{"rate": mr, "keep": a.keep}
-		if a.keep != c10StressSpace.Expected(h.conf[i], h.id) {
+		// the decision must be the one of the rate the instance REPORTS
+		if a.keep != c10StressSpace.Expected(uint64(a.rate), h.id) {
 			agrees = false
 		}
 	}
@@ -321,7 +347,7 @@ func TestVerifC10StressStats(t *testing.T) {
 	b := make([]*c10StressNode, len(rates))
 	for k, r := range rates {
 		var err error
-		if b[k], err = c10StressFresh(r); err != nil {
+		if b[k], err = c10StressFresh(r, c10StressProfileNames[k%len(c10StressProfileNames)]); err != nil {
 			add(map[string]any{"kind": "panic", "rate": r, "error": err.Error()})
 		}
 	}
@@ -338,7 +364,7 @@ func TestVerifC10StressStats(t *testing.T) {
 		dropped := false
 		for k, r := range rates {
 			if i%16 == 0 {
-				if err := a.configure(r); err != nil {
+				if err := a.configure(r, c10StressProfileNames[(i/16+k)%len(c10StressProfileNames)]); err != nil {
 					add(map[string]any{"kind": "panic", "rate": r, "error": err.Error()})
 					continue
 				}
